@@ -2,7 +2,7 @@
 From Coq Require Import ZArith List Bool String.
 From Coq Require Extraction.
 From Coq Require Import ExtrOcamlBasic ExtrOcamlString.
-From HV Require Import Gen.GenCutWarn Gen.GenLogFilter Model.ReportModel.
+From HV Require Import Gen.GenCutWarn Gen.GenLogFilter Gen.GenRunTest Spec.PanicSpec Model.RunnerModel Model.ReportModel.
 Import ListNotations.
 Open Scope Z_scope.
 
@@ -33,8 +33,22 @@ Definition c10_depth_cut (a : list Z) : list Z :=
   | _ => []
   end.
 
+Definition z2b (z : Z) : bool := negb (z =? 0).
+
+(* [setup; ntargets; targets...; states...] -> [LOOP_BOUND warned]: setUp, the target transactions, and the
+   invariant transaction on each frontier state (one SEVM) *)
+Definition c10_inv_warned (a : list Z) : list Z :=
+  match a with
+  | s :: nt :: r =>
+      let targets := firstn (Z.to_nat nt) r in
+      let states := skipn (Z.to_nat nt) r in
+      [b2z (loop_bound_warned (mkInvRun (z2b s) (map z2b targets) (sevm_logs_after (map z2b states))))]
+  | _ => []
+  end.
+
 Definition table : list (string * (list Z -> list Z)) :=
   [ ("c10_depth_session"%string, c10_depth_session);
-    ("c10_depth_cut"%string, c10_depth_cut) ].
+    ("c10_depth_cut"%string, c10_depth_cut);
+    ("c10_inv_warned"%string, c10_inv_warned) ].
 
 Extraction "_build/C10/entries.ml" table.
